@@ -1,5 +1,5 @@
 """C13 -- the built-in file server never serves anything outside its document roots."""
-import os, re, shutil, socket, itertools, json, html, urllib.parse
+import os, re, shutil, socket, itertools, json, html, urllib.parse, stat, threading, time
 import vlib
 from vlib import hexs, unhex
 
@@ -21,9 +21,11 @@ META = dict(
                 'percent-encoded normal form of the request path: only unreserved bytes, percent signs and slashes (one header line), '
                 'on this site, leading back to the same directory; percent-encoding is transparent and undone exactly once before normalisation; in the name-space '
                 'model (every finite symlink graph, 40-link limit) realpath is idempotent and every served file is its own real path '
-                'under the real path of the root in force. The model is tied to the '
+                'under the real path of the root in force; for every kind of object (regular, directory, FIFO, devices, socket, link, failed stat) '
+                'main streams only what passes the S_IFREG bit test and never reaches open() for a FIFO, a device or a directory, and in the '
+                'name-space model only regular-file nodes are streamed. The model is tied to the '
                 'source by running normalize_path exhaustively on all strings of length <= 8 over {a . /} and by replaying generated '
-                'request targets against real services (8 configurations) over a sandbox with symlinks, aliases and marker files.'),
+                'request targets against real services (10 configurations, two of them with the asynchronous file handler mounted directly) over a sandbox with symlinks, aliases and marker files.'),
     level_note=('Trusted: Coq kernel + vm_compute; extraction; the hand model of the C++ (tied by correspondence, not by translation, '
                 'except is_directory_separator which is regenerated from source); the POSIX name-space model used by the model driver; '
                 'the kernel path resolution itself (TOCTOU between realpath/stat and open is out of scope); Windows branches not modelled.'),
@@ -32,7 +34,63 @@ META = dict(
 GEN = {
     'Gen_fileserver': dict(src='src/internal_file_server.cpp',
                            functions=[('is_directory_separator', 'g_is_directory_separator')]),
+    # the platform values of the st_mode bits tested by main / list_dir (sys/stat.h through a two-line translation unit)
+    'Gen_C13_mode': dict(src=os.path.join(vlib.VERIF, 'harness', 'C13_mode_tu.cpp'), incs=[],
+                         consts=[('c13_' + n, 'g_c13_' + n) for n in ('S_IFMT', 'S_IFDIR', 'S_IFREG', 'S_IFIFO', 'S_IFCHR', 'S_IFBLK', 'S_IFLNK', 'S_IFSOCK')]),
 }
+
+# rigid statement tie: file_server::main and file_server::file_mode, comments and white space removed, must be the text fs_main /
+# serve / the mode tests of coq/C13/Defs.v were written from (cxx2v cannot translate them: std::string, streams, member calls).
+# Any rewrite of the decision tree - an early return, a dropped or changed mode test, a reordered branch - has to be looked at.
+MAIN_TEXT = ('void file_server::main(std::string file_name) { std::string path; if(!check_in_document_root(file_name,path)) { show404(); return; } '
+             'int s=file_mode(path); if((s & S_IFDIR)) { std::string path2; int mode_2=0; bool have_index = check_in_document_root(file_name+"/" + '
+             'index_file_ ,path2); if(have_index) { mode_2 = file_mode(path2); have_index = (mode_2 & S_IFREG) != 0; } if( !file_name.empty() && '
+             "file_name[file_name.size()-1]!='/' && (have_index || list_directories_) ) { std::string normal = file_name; normalize_path(normal); "
+             "std::string location; for(size_t i=0;i<normal.size();i++) { if(normal[i]=='/') location += '/'; else location += "
+             'util::urlencode(normal.substr(i,1)); } if(location != "/") location += \'/\'; response().set_redirect_header(location); '
+             'response().out()<<std::flush; return; } if(have_index) { path = path2; s=mode_2; } else { if(list_directories_) '
+             'list_dir(file_name,path); else show404(); return; } } if(!(s & S_IFREG)) { show404(); return; } std::string ext; size_t pos = '
+             "path.rfind('.'); if(pos != std::string::npos) ext=path.substr(pos); mime_type::const_iterator p=mime_.find(ext); if(p!=mime_.end()) "
+             'response().content_type(p->second); else response().content_type("application/octet-stream"); if(!allow_deflate_ && !async_) { '
+             'response().io_mode(http::response::nogzip); } if(async_) { file_server_detail::async_file_handler::pointer_type p=new '
+             'file_server_detail::async_file_handler(path,release_context()); p->go(); } else { booster::nowide::ifstream '
+             'file(path.c_str(),std::ios_base::binary); if(!file) { show404(); return; } response().out()<<file.rdbuf(); } }')
+FILE_MODE_TEXT = ('int file_server::file_mode(std::string const &file_name) { port_stat st; if(get_stat(file_name.c_str(),&st) < 0) return 0; '
+                  'return st.st_mode; }')
+
+
+def function_text(txt, head):
+    i = txt.find(head)
+    if i < 0:
+        return None
+    j = txt.index('{', i)
+    d, k = 0, j
+    while k < len(txt):
+        if txt[k] == '{':
+            d += 1
+        elif txt[k] == '}':
+            d -= 1
+            if d == 0:
+                return ' '.join(txt[i:k + 1].split())
+        k += 1
+    return None
+
+
+def main_text_tie():
+    try:
+        txt = open(os.path.join(vlib.REPO, 'src', 'internal_file_server.cpp')).read()
+    except Exception as e:
+        return 'cannot read src/internal_file_server.cpp: %s' % e
+    txt = re.sub(r'/\*.*?\*/', ' ', txt, flags=re.S)
+    txt = re.sub(r'//[^\n]*', ' ', txt)
+    for head, want in (('void file_server::main(std::string file_name)', MAIN_TEXT), ('int file_server::file_mode(std::string const &file_name)', FILE_MODE_TEXT)):
+        got = function_text(txt, head)
+        if got is None:
+            return 'function not found: ' + head
+        if got != want:
+            n = next((i for i in range(min(len(got), len(want))) if got[i] != want[i]), min(len(got), len(want)))
+            return 'the text of %s changed at: ...%s  (the model was written from: ...%s)' % (head, got[max(0, n - 60):n + 120], want[max(0, n - 60):n + 120])
+    return None
 
 MARK = b'C13MARK{%d}'
 MARK_RE = re.compile(rb'C13MARK\{(\d+)\}')
@@ -84,6 +142,18 @@ TREE = [
     ('l', b'root/ldslash', b'a/b/'), ('l', b'root/lfslash', b'f.txt/'), ('l', b'root/k/dang0', b'dang1'), ('l', b'root/k/dang1', b'nowhere'),
     ('l', b'ali1/lchain', b'../root/k/c30'), ('l', b'ali1/lin2', b'sub/'), ('l', b'root/k/abs', b'@B@/root/k/c10'),
     ('l', b'root/k/updown', b'../k/../kd/c35/sub'),
+    # entries that exist and are neither directories nor regular files, inside the root and inside an alias target: they must never
+    # be opened for streaming.  p = FIFO nobody writes to (open() for reading would block for ever), w = FIFO fed by a writer thread
+    # of this check with its own marker, s = unix socket, c = character device node (1,3 = null, 1,5 = zero), links to /dev/null and
+    # /dev/zero, a directory and a link named like files, an index.html that is a FIFO / a device
+    ('d', b'root/nr'), ('p', b'root/nr/fifo.txt'), ('w', b'root/nr/fed.txt'), ('s', b'root/nr/sock.html'),
+    ('c', b'root/nr/cnull.txt', 1, 3), ('c', b'root/nr/czero', 1, 5), ('l', b'root/nr/lnull.txt', b'/dev/null'), ('l', b'root/nr/lzero', b'/dev/zero'),
+    ('d', b'root/nr/dir.txt'), ('f', b'root/nr/dir.txt/in.txt'), ('l', b'root/nr/lfifo', b'fifo.txt'), ('l', b'root/nr/lfed.html', b'fed.txt'),
+    ('f', b'root/nr/plain.txt'),
+    ('d', b'root/nr/ifi'), ('p', b'root/nr/ifi/index.html'), ('d', b'root/nr/ifw'), ('w', b'root/nr/ifw/index.html'),
+    ('d', b'root/nr/idev'), ('c', b'root/nr/idev/index.html', 1, 3), ('d', b'root/nr/isock'), ('s', b'root/nr/isock/index.html'),
+    ('p', b'ali1/afifo'), ('w', b'ali1/afed.txt'), ('s', b'ali1/asock'), ('c', b'ali1/acnull', 1, 3), ('l', b'ali1/alnull', b'/dev/null'),
+    ('l', b'ali1/alzero.txt', b'/dev/zero'), ('p', b'ali2/afifo2'), ('w', b'ali2/sub2/afed2'),
 ]
 
 A0 = []
@@ -101,6 +171,10 @@ CONFIGS = [
     (b'root', False, True, b'e.txt', A3, False),
     (b'root', True, False, b'e.txt', A0, True),
     (b'root/a/..', True, True, b'index.html', A4, True),
+    # 'handler': the harness mounts file_server(srv, async=true) itself - the only way to reach file_server_detail::async_file_handler
+    # (cppcms::service always constructs file_server(srv): file_server.async merely mounts the synchronous code in the event loop)
+    (b'root', True, True, b'index.html', A1, 'handler'),
+    (b'root', False, False, b'index.html', A3, 'handler'),
 ]
 
 MIME = {b'.txt': b'text/plain', b'.html': b'text/html'}
@@ -115,6 +189,9 @@ class Sandbox:
             shutil.rmtree(self.base)
         os.makedirs(self.base)
         self.ids = {}        # abs path -> id
+        self.fed = {}        # abs path of a FIFO with a writer -> the marker id the writer feeds
+        self.writers = []
+        self.stopping = False
         self.nodes = []      # (abspath, kind, extra)
         n = 0
         for ent in TREE:
@@ -133,9 +210,18 @@ class Sandbox:
                 t = ent[2].replace(b'@B@', self.base)
                 os.symlink(t, p)
                 self.nodes.append((p, 'l', t))
-            elif kind == 'p':
+            elif kind in ('p', 'w'):
                 os.mkfifo(p)
                 self.nodes.append((p, 'o', os.lstat(p).st_mode))
+                if kind == 'w':
+                    n += 1
+                    self.fed[p] = n
+            elif kind == 'c':
+                try:
+                    os.mknod(p, 0o666 | stat.S_IFCHR, os.makedev(ent[2], ent[3]))
+                    self.nodes.append((p, 'o', os.lstat(p).st_mode))
+                except OSError:
+                    pass          # no privilege to create device nodes: the links to /dev/null and /dev/zero remain
             elif kind == 's':
                 try:
                     dfd = os.open(os.path.dirname(p), os.O_RDONLY)
@@ -166,6 +252,9 @@ class Sandbox:
         for a in reversed(ancs):
             lines.append('n %s d' % hexs(a))
         lines.append('n %s d' % hexs(self.base))
+        lines.append('n %s d' % hexs(b'/dev'))
+        for dv in (b'/dev/null', b'/dev/zero'):
+            lines.append('n %s o %d' % (hexs(dv), os.stat(dv).st_mode))
         for p, k, x in self.nodes:
             if k == 'd':
                 lines.append('n %s d' % hexs(p))
@@ -185,15 +274,53 @@ class Sandbox:
         sv = []
         for c in self.cfg:
             fsrv = {'enable': True, 'document_root': c['root'].decode(), 'listing': c['listing'], 'check_symlink': c['check'],
-                    'index': c['index'].decode(), 'async': c['asyn']}
+                    'index': c['index'].decode(), 'async': bool(c['asyn'])}
             if c['aliases']:
                 fsrv['alias'] = [{'url': u.decode(), 'path': t.decode()} for u, t in c['aliases']]
-            sv.append({'file_server': fsrv, 'service': {'worker_threads': 2}, 'http': {'timeout': 30}})
+            sv.append({'file_server': fsrv, 'service': {'worker_threads': 2}, 'http': {'timeout': 30}, 'c13_async_handler': c['asyn'] == 'handler'})
         self.cfgfile = self.base.decode() + '.json'
         with open(self.cfgfile, 'w') as f:
             json.dump({'services': sv}, f)
 
+    def start_writers(self):
+        """one thread per fed FIFO: open for writing (blocks until somebody opens the FIFO for reading - on a correct server nobody
+        ever does), write the marker, close, again"""
+        def feed(path, n):
+            while not self.stopping:
+                try:
+                    fd = os.open(path, os.O_WRONLY)
+                except OSError:
+                    return
+                try:
+                    if not self.stopping:
+                        os.write(fd, MARK % n + b'\n')
+                except OSError:
+                    pass
+                finally:
+                    os.close(fd)
+                time.sleep(0.02)     # let the reader see end-of-file before the FIFO gets a writer again
+        for path, n in self.fed.items():
+            t = threading.Thread(target=feed, args=(path, n), daemon=True)
+            t.start()
+            self.writers.append((t, path))
+
+    def stop_writers(self):
+        self.stopping = True
+        for t, path in self.writers:
+            for _ in range(50):
+                if not t.is_alive():
+                    break
+                try:          # release a writer parked in open(): become its reader for a moment
+                    fd = os.open(path, os.O_RDONLY | os.O_NONBLOCK)
+                    time.sleep(0.01)
+                    os.close(fd)
+                except OSError:
+                    pass
+                t.join(0.05)
+        self.writers = []
+
     def cleanup(self):
+        self.stop_writers()
         shutil.rmtree(self.base, ignore_errors=True)
         for p in (getattr(self, 'treefile', None), getattr(self, 'cfgfile', None)):
             if p and os.path.exists(p):
@@ -412,6 +539,33 @@ def gen_cases(ctx):
     for k in range(ncfg):
         for l in chain:
             cases.append('rq %d %s' % (k, hexs(b'/' + b'/'.join(enc_seg(x, rng, 0) for x in l))))
+    # --- entries that are neither directories nor regular files (FIFO with / without writer, socket, device node, links to /dev/null
+    #     and /dev/zero, FIFO / socket / device named index.html), inside the root and inside alias targets: named directly, through
+    #     dot-dot, percent-encoded, with a trailing slash, in every configuration (sync and async)
+    nonreg = []
+    for ent in TREE:
+        rel = ent[1].split(b'/')
+        special = ent[0] in ('p', 'w', 's', 'c') or (ent[0] == 'l' and (ent[2].startswith(b'/dev/') or ent[2] in (b'fifo.txt', b'fed.txt')))
+        if not special:
+            continue
+        if rel[0] == b'root':
+            urls = [rel[1:]]
+        elif rel[0] == b'ali1':
+            urls = [[b'al'] + rel[1:]]
+        else:
+            urls = [[b'al', b'sub'] + rel[1:], [b'sub'] + rel[1:]]
+        for u in urls:
+            nonreg.append((u, ent[0] == 'p' or (ent[0] == 'l' and ent[2] == b'fifo.txt')))
+            if u[-1] == b'index.html':
+                nonreg.append((u[:-1] + [b''], False))
+                nonreg.append((u[:-1], False))
+    for k in range(ncfg):
+        for u, may_park in nonreg:
+            variants = [(u, 0), (u[:-1] + [b'zz', b'..', u[-1]], 2)]
+            if not (may_park and ctx.quick()):        # a regression that parks the server costs ~0.5 s per such request
+                variants += [(u, 1), ([b'a', b'..'] + u, 0), (u + [b''], 0), (u + [b'.'], 2), (u[:-1] + [b'.', u[-1]], 1)]
+            for l, mode in variants:
+                cases.append('rq %d %s' % (k, hexs(b'/' + b'/'.join(enc_seg(x, rng, mode) for x in l))))
     # long targets (normalisation must bring them back to something short)
     for _ in range(ctx.scale(40, 600)):
         k = rng.randrange(ncfg)
@@ -610,11 +764,14 @@ def reply_bytes(out):
 def parse_reply(out):
     """-> dict(status=int, headers={lower: value}, body=bytes, timeout=bool, raw=bytes) or None"""
     o = out.split()
+    if len(o) == 3 and o[0] == 'rq' and o[1] == 'HANG':
+        return dict(status=0, headers={}, body=b'', timeout=True, hang=o[2], bounded=False, raw=b'', location=None)
     if len(o) != 2 or o[0] != 'rq':
         return None
     h = o[1]
-    to = h.endswith('!T')
-    if to:
+    to = False
+    bounded = h.endswith('!B')
+    if bounded:
         h = h[:-2]
     try:
         b = unhex(h)
@@ -630,13 +787,13 @@ def parse_reply(out):
     else:
         he = b.find(b'\r\n\r\n')
     if he < 0:
-        return dict(status=0, headers={}, body=b, timeout=to, raw=b, location=loc)
+        return dict(status=0, headers={}, body=b, timeout=to, hang=None, bounded=bounded, raw=b, location=loc)
     head = b[:he].split(b'\r\n')
     hd = {}
     for l in head[1:]:
         n, _, v = l.partition(b':')
         hd[n.strip().lower()] = v.strip()
-    return dict(status=st, headers=hd, body=b[he + 4:], timeout=to, raw=b, location=loc)
+    return dict(status=st, headers=hd, body=b[he + 4:], timeout=to, hang=None, bounded=bounded, raw=b, location=loc)
 
 
 def canon_case(case, out):
@@ -648,7 +805,9 @@ def canon_case(case, out):
     if r is None:
         return out
     if r['timeout']:
-        return 'rq timeout'
+        return 'rq hang ' + str(r['hang'])
+    if r['bounded']:
+        return 'rq unbounded-reply status-%d' % r['status']
     st = r['status']
     if st == 404:
         return 'rq 404'
@@ -723,6 +882,19 @@ def dirlike(p):
         return False
 
 
+def node_kind(p):
+    """kind of the object a path leads to (links followed, as stat does)"""
+    try:
+        m = os.stat(p).st_mode
+    except OSError:
+        return 'missing'
+    for test, name in ((stat.S_ISREG, 'regular file'), (stat.S_ISDIR, 'directory'), (stat.S_ISFIFO, 'FIFO'), (stat.S_ISSOCK, 'unix socket'),
+                       (stat.S_ISCHR, 'character device'), (stat.S_ISBLK, 'block device')):
+        if test(m):
+            return name
+    return 'other'
+
+
 def inside(real, root):
     return real == root or real.startswith(root.rstrip(b'/') + b'/')
 
@@ -775,8 +947,6 @@ def oracle(case, out):
     r = parse_reply(out)
     if r is None:
         return ('bad-output-rq', 'unexpected harness answer ' + out[:200])
-    if r['timeout']:
-        return ('no-reply', 'the service did not finish the reply')
     ref = reference(cfg, raw)
     st = r['status']
     body = r['body']
@@ -787,11 +957,27 @@ def oracle(case, out):
     cand = [full]
     if os.path.isdir(full):
         cand.append(full.rstrip(b'/') + b'/' + cfg['index'])
+    # "the contents of a REGULAR file": an existing entry that is neither a directory nor a regular file (FIFO, socket, device -
+    # directly or through symbolic links) must never be opened, let alone streamed
+    nonreg = [(p_, node_kind(p_)) for p_ in cand if node_kind(p_) not in ('regular file', 'directory', 'missing')]
+    if r['timeout']:
+        if nonreg:
+            return ('opens-non-regular-file', 'the request names %r, a %s: the server never answered (HANG %s) - a worker thread or the event '
+                    'loop is parked, e.g. inside open() of a FIFO without a writer' % (nonreg[0][0], nonreg[0][1], r['hang']))
+        return ('request-hangs', 'the service never answered this request (HANG %s)' % r['hang'])
+    if r['bounded']:
+        if nonreg:
+            return ('streams-non-regular-file', 'the request names %r, a %s: the server streams from it without end (reply cut after 256 KiB)' % nonreg[0])
+        return ('unbounded-reply', 'reply longer than 256 KiB: nothing in the sandbox is that long')
     for p in cand:
         rp = os.path.realpath(p)
         if os.path.isfile(p) and rp in S.ids and (not cfg['check'] or inside(rp, root)):
             allowed.add(S.ids[rp])
     marks = set(int(x) for x in MARK_RE.findall(body)) | set(int(x) for x in MARK_RE.findall(b' '.join(r['headers'].values())))
+    fed = set(S.fed.values()) & marks
+    if fed:
+        pth = [k for k, v in S.fed.items() if v in fed][0]
+        return ('streams-non-regular-file', 'the reply carries the marker that only the writer of the FIFO %r produces: the server opened a FIFO and streamed from it' % pth)
     bad = marks - allowed
     if bad and not ref['malformed']:
         pth = S.idpath[min(bad)] if min(bad) in S.idpath else b'?'
@@ -849,6 +1035,8 @@ def oracle(case, out):
                 return ('listing-wrong-entries', 'listing rows %r, directory has %r' % (sorted(names), sorted(want)))
             if parent != (ref['decoded'] not in (b'/', b'')) and not ref['malformed']:
                 return ('listing-parent-link', 'the parent row is present exactly when the request path is not the site root')
+        elif nonreg and not ref['malformed'] and not any(node_kind(p_) == 'regular file' for p_ in cand):
+            return ('streams-non-regular-file', '200 reply with a body of %d bytes for %r, a %s: only S_IFREG files may be streamed' % (len(body), nonreg[0][0], nonreg[0][1]))
         elif not marks and not ref['malformed']:
             return ('serves-unknown-content', '200 reply that is neither a listing nor a marker file')
         elif not ref['malformed'] and len(marks) == 1:
@@ -870,7 +1058,8 @@ def oracle(case, out):
         if not dirlike(full) or (cfg['check'] and not inside(real, root)):
             return ('redirect-for-non-directory', 'redirect for a request that does not denote a directory inside the root in force')
         ip = full.rstrip(b'/') + b'/' + cfg['index']
-        have_index = os.path.isfile(ip) and (not cfg['check'] or inside(os.path.realpath(ip), root))
+        # (a socket named like the index file passes the S_IFREG bit test - 0140000 - and is then refused by open(): harmless quirk)
+        have_index = (os.path.isfile(ip) or node_kind(ip) == 'unix socket') and (not cfg['check'] or inside(os.path.realpath(ip), root))
         if not (have_index or cfg['listing']):
             return ('redirect-unexpected', 'redirect although the directory has no index file and listing is off')
         if ref['decoded'].endswith(b'/'):
@@ -919,6 +1108,9 @@ def run(ctx):
     errs = vlib.gen_coq(GEN)
     for n, e in errs:
         ctx.broke('translator cxx2v failed on %s (tie to source broken)' % n, e)
+    tie = main_text_tie()
+    if tie:
+        ctx.broke('statement tie: file_server::main / file_mode no longer have the text the model was written from', tie)
     res = vlib.coq_props('C13')
     ctx.proof(res)
     ctx.coverage['trusted_base'] = [
@@ -928,12 +1120,14 @@ def run(ctx):
         'hand model of normalize_path / is_file_prefix / check_in_document_root / main / list_dir and of the http_api.cpp path pipeline (coq/C13/Defs.v), tied by correspondence',
         'POSIX name-space model fs_realpath/fs_mode/fs_dir_entries in coq/C13/Defs.v incl. the 40-link limit (model driver, and the subject of realpath_model_idempotent / model_served_file_under_real_root; the containment theorems quantify over the OS functions)',
         'coq/C13/PageDefs.v: the string literals of list_dir copied as byte lists (tied by whole-page correspondence); date/size/version are parameters',
-        'harness/C13_fileserver.cpp, ocaml/C13_driver.ml, checks/C13.py (sandbox builder, generators, reply parser, reference resolution using os.path.realpath)']
+        'rigid statement tie of file_server::main / file_mode (checks/C13.py: main_text_tie); S_IF* values regenerated from sys/stat.h by cxx2v',
+        'harness/C13_fileserver.cpp (dispatcher + one service process per configuration, /proc-based open() watchdog), ocaml/C13_driver.ml, checks/C13.py (sandbox builder, generators, reply parser, reference resolution using os.path.realpath)']
     ctx.assumptions = [
         'realpath contract (hypothesis of contained_real): a successful canonicalize_file_name/realpath returns a slash-rooted path without empty, dot, dot-dot components that names the same object with every symbolic link resolved',
         'PATH_INFO reaches file_server::main as a C string (no NUL): true for the http, scgi and fastcgi front ends; theorems about main take nonul file_name as a premise, path_info_nonul discharges it for the HTTP pipeline',
         'document root and alias targets are outputs of canonical() (constructor), alias URLs passed the constructor checks',
         'no concurrent modification of the served tree between realpath/stat and open (TOCTOU out of scope)',
+        'OS facts behind only-regular-files-are-streamed: stat follows symbolic links (never reports S_IFLNK) and open() refuses a unix socket (ENXIO); both exercised by the harness',
         'listing page theorem: directory entry names are byte strings (< 256); the formatted date, size and package version carry no < > quote byte',
         'model_served_file_under_real_root: roots in force are outputs of the model realpath (what the constructor stores)']
     exe, err = vlib.build_harness('C13_fileserver', ['C13_fileserver.cpp'])
@@ -946,6 +1140,7 @@ def run(ctx):
     S = Sandbox(ctx.workdir)
     try:
         S.write_files()
+        S.start_writers()
         if ctx.replay_cases is not None:
             cases = ctx.replay_cases
         else:
@@ -953,7 +1148,7 @@ def run(ctx):
         ctx.coverage['rule'] = (
             'cases: np/npi/rs <hex> = file_server::normalize_path called directly (compared with the functional model, the buffer/iterator '
             'model and the textbook resolution); rq <k> <hex> = raw request target sent as GET over loopback HTTP to live service k '
-            '(8 configurations: check_symlink x listing x 0..2 aliases in 5 arrangements x sync/async) over the sandbox tree. Exhaustive: all strings of '
+            '(10 configurations: check_symlink x listing x 0..2 aliases in 5 arrangements x synchronous / mounted asynchronously / async_file_handler) over the sandbox tree. Exhaustive: all strings of '
             'length <= 8 over {a . /} and length <= 5 over {a . / NUL b} through normalize_path; thorough tier: all segment lists of length '
             '<= 2 over every name of the sandbox and length 3 over a 19-name core set, for each configuration (quick tier: a seeded 15 % / '
             '8 % of them). Random (seeded): decorated paths to every node inside and outside, segment soup, percent-encoded separators '
@@ -962,7 +1157,9 @@ def run(ctx):
             'names made of markup, entities, URL syntax, control bytes, line ends and ill-formed UTF-8 is listed and every node of it requested '
             'in 3 encodings per configuration; redirect probes (CR LF, quotes, ?, #, %, +, //host/.., /%2fhost/.., /\\host/..); all token '
             'strings of length <= 2 (thorough: <= 4) over {/ . %2e %2f %25 %00 a 2e 2f %252e %5c} between real prefixes and tails, check_symlink '
-            'on and off; symlink chains of 40/41/42 links, links with trailing slash, dangling chains, links through alias targets. Non-trivial: normalize cases that '
+            'on and off; symlink chains of 40/41/42 links, links with trailing slash, dangling chains, links through alias targets; FIFOs with and '
+            'without a writer, sockets, device nodes, links to /dev/null and /dev/zero, inside the root and alias targets, named directly / through dot-dot / '
+            'percent-encoded in every configuration (an unanswered request is the outcome HANG, an endless reply is cut at 256 KiB). Non-trivial: normalize cases that '
             'contain a dot component or a double slash; requests whose reply is not 404. distinct = distinct case lines.')
         ctx.coverage['exhaustive'] = False
         ctx.coverage['exhaustive_parts'] = ['normalize_path: all strings of length 0..8 over {a . /} (9841)', 'length 1..5 over {a . / NUL b} (3905)']
